@@ -23,6 +23,10 @@ from .core import Unsupported, HarnessError
 ROOT = os.path.dirname(os.path.dirname(os.path.abspath(__file__)))
 EVID = os.path.join(ROOT, "evidence")
 REPLAYS = os.path.join(EVID, "replays")
+if os.path.realpath(os.environ.get("VERIF_REPO", "/repo")) != "/repo":
+    # a relocated run (a seeded change in a scratch worktree) must not overwrite the evidence of /repo itself
+    EVID = os.path.join("/tmp", "verif-scratch-evidence")
+    os.makedirs(EVID, exist_ok=True)
 REAL_PY = "/venv/bin/python"
 
 
